@@ -192,6 +192,7 @@ type gen struct {
 	stop  bool
 	vcap  int
 	check func(*Case, *Env) []verdict
+	recent []*Case // the last few cases this process executed (prelude of a recorded violation)
 }
 
 func (g *gen) mine() bool {
@@ -238,10 +239,22 @@ func (g *gen) run(c *Case, nontrivial bool) {
 			g.st.Known[v.sig]++
 			continue
 		}
-		raw, _ := json.Marshal(c)
+		rec := *c
+		for _, p := range g.recent {
+			pc := *p
+			pc.Prelude = nil
+			rec.Prelude = append(rec.Prelude, pc)
+		}
+		raw, _ := json.Marshal(&rec)
 		g.st.Violations = append(g.st.Violations, evid.Violation{Property: g.cfg.Prop, Signature: v.sig, What: v.what, Case: raw})
 		if len(g.st.Violations) >= g.vcap {
 			g.stop = true
+		}
+	}
+	if len(c.Data) <= 8192 {
+		g.recent = append(g.recent, c)
+		if len(g.recent) > 8 {
+			g.recent = g.recent[1:]
 		}
 	}
 }
